@@ -45,6 +45,10 @@ type World struct {
 	nPackages int
 	callersOf map[*ssa.Function][]*callgraph.Edge
 	NormNotes []string
+
+	rawRoots []*packages.Package // as loaded, before helper expansion
+	missing  []string            // inventory functions the tree no longer declares (and that were not renamed)
+	renames  map[string]string
 }
 
 var noNormalise, dumpNormalised bool
@@ -72,7 +76,69 @@ type LoadConfig struct {
 	Tags   string
 }
 
+// loadWorld loads the tree, normalises it (renames, helper expansion) and — when an anchored function is gone —
+// tries the re-outlining pass of reoutline.go.
 func loadWorld(cfg LoadConfig) (*World, error) {
+	fieldAlias = map[*types.Var]string{}
+	aliasOldName = map[types.Object]string{}
+	aliasNewName = map[string]string{}
+	constAlias = map[string]string{}
+	w, err := loadWorldStage(cfg, nil, nil)
+	if err != nil || noNormalise || noReoutline || len(w.missing) == 0 {
+		return w, err
+	}
+	note := func(s string) { w.NormNotes = append(w.NormNotes, s) }
+	plan, why := planReoutline(w.rawRoots, w.missing, w.renames)
+	if plan == nil {
+		note("re-outlining of " + strings.Join(w.missing, ", ") + " not attempted: " + why)
+		return w, nil
+	}
+	force := map[string]bool{}
+	for _, m := range plan.missing {
+		force[m] = true
+	}
+	w2, err2 := loadWorldStage(cfg, plan.overlay, force)
+	if err2 != nil {
+		note("re-outlining of " + strings.Join(w.missing, ", ") + " abandoned: the tree with the reference text put back does not load (" + err2.Error() + ")")
+		return w, nil
+	}
+	for _, k := range plan.replaced {
+		f, g := w.funcByKey(k), w2.funcByKey(k)
+		if f == nil || g == nil {
+			note("re-outlining abandoned: " + k + " not found after expansion")
+			return w, nil
+		}
+		if ok, why := funcsCanonicallyEqual(w, f, w2, g); !ok {
+			note("re-outlining of " + strings.Join(w.missing, ", ") + " abandoned: " + k + " is not canonically equal to its reference text with the missing function expanded (" + why + "); the tree is analysed as written")
+			if dumpNormalised {
+				fmt.Println("REOUTLINE REJECTED:", k, why)
+			}
+			return w, nil
+		}
+	}
+	w3, err3 := loadWorldStage(cfg, plan.overlay, nil)
+	if err3 != nil {
+		note("re-outlining abandoned: " + err3.Error())
+		return w, nil
+	}
+	w3.NormNotes = append(w3.NormNotes, fmt.Sprintf("re-outlined: %s no longer exist(s) in the tree; %s proved canonically equal (calls, stores, returns and branch conditions, block for block) to the reference text of these callers with the missing function(s) expanded in place, so the tree is analysed with the reference decomposition of exactly these functions", strings.Join(plan.missing, ", "), strings.Join(plan.replaced, ", ")))
+	return w3, nil
+}
+
+var noReoutline bool
+
+func (w *World) funcByKey(key string) *ssa.Function {
+	for f := range w.allFuncs {
+		if f.Parent() == nil && f.Synthetic == "" && w.inModule(f) && ssaDeclKey(f) == key {
+			return f
+		}
+	}
+	return nil
+}
+
+// loadWorldStage: base = overlay to load over the files on disk (nil = none); forceHelper = inventory functions to
+// treat as non-inventory helpers (they are expanded into their callers).
+func loadWorldStage(cfg LoadConfig, base map[string][]byte, forceHelper map[string]bool) (*World, error) {
 	env := append(os.Environ(), "GOFLAGS=-mod=mod", "GOPROXY=off", "GOSUMDB=off", "GOWORK=off", "GOTOOLCHAIN=local")
 	if cfg.GOOS != "" {
 		env = append(env, "GOOS="+cfg.GOOS, "CGO_ENABLED=0")
@@ -89,24 +155,39 @@ func loadWorld(cfg LoadConfig) (*World, error) {
 	if cfg.Tags != "" {
 		pc.BuildFlags = []string{"-tags=" + cfg.Tags}
 	}
+	if base != nil {
+		pc.Overlay = base
+	}
 	roots, err := packages.Load(pc, "./...")
 	if err != nil {
 		return nil, fmt.Errorf("load: %v", err)
 	}
+	rawRoots := roots
 	var normNotes []string
 	var dead map[string]bool
+	var missing []string
 	renames := map[string]string{}
-	fieldAlias = map[*types.Var]string{}
 	if !noNormalise && !anyModuleErrors(roots) {
 		inv := loadInventory()
+		for k := range forceHelper {
+			delete(inv, k)
+		}
 		renames = resolveRenames(roots, inv)
+		if forceHelper == nil {
+			missing = missingAnchors(roots, inv, renames)
+		}
 		for nk, ok := range renames {
 			inv[nk] = inv[ok]
 			normNotes = append(normNotes, fmt.Sprintf("renamed: %s is analysed in the place of the inventory function %s (same package, receiver and signature; %s is gone)", nk, ok, ok))
 		}
 		sort.Strings(normNotes)
-		if overlay, rep := normalise(roots, inv); overlay != nil {
+		if overlay, rep := normalise(roots, inv, base); overlay != nil {
 			pc2 := *pc
+			for name, b := range base {
+				if _, ok := overlay[name]; !ok {
+					overlay[name] = b
+				}
+			}
 			pc2.Overlay = overlay
 			roots2, err2 := packages.Load(&pc2, "./...")
 			if err2 == nil && !anyModuleErrors(roots2) {
@@ -137,7 +218,7 @@ func loadWorld(cfg LoadConfig) (*World, error) {
 			normNotes = append(normNotes, rep.notes()...)
 		}
 	}
-	w := &World{Dir: cfg.Dir, Env: env, All: map[string]*packages.Package{}, Roots: roots, NormNotes: normNotes}
+	w := &World{Dir: cfg.Dir, Env: env, All: map[string]*packages.Package{}, Roots: roots, NormNotes: normNotes, rawRoots: rawRoots, missing: missing, renames: renames}
 	var errs []string
 	packages.Visit(roots, nil, func(p *packages.Package) {
 		w.All[p.PkgPath] = p
@@ -172,16 +253,18 @@ func loadWorld(cfg LoadConfig) (*World, error) {
 	}
 	w.allFuncs = ssautil.AllFunctions(prog)
 	if !noNormalise {
-		var fnotes []string
-		fieldAlias, fnotes = resolveFieldRenames(roots)
+		fa, fnotes := resolveFieldRenames(roots)
+		for k, v := range fa {
+			fieldAlias[k] = v
+		}
 		w.NormNotes = append(w.NormNotes, fnotes...)
-		var cnotes []string
-		constAlias, cnotes = resolveConstRenames(roots)
+		ca, cnotes := resolveConstRenames(roots)
+		for k, v := range ca {
+			constAlias[k] = v
+		}
 		w.NormNotes = append(w.NormNotes, cnotes...)
 	}
 	// renamed functions answer to their inventory names
-	aliasOldName = map[types.Object]string{}
-	aliasNewName = map[string]string{}
 	for nk, ok := range renames {
 		aliasNewName[ok] = nk
 	}
